@@ -353,10 +353,16 @@ def run_shard(spec, seed, tier):
                 cases.append(c)
         res.extra["invalid_sweep"] = "every invalid-configuration kind x every scheme, and create-with-the-stored-config sequences (complete)"
     res.extra["enumerated_sequences"] = len(cases)
+    nvio = 0
     for case in cases:
+        if nvio >= 6:
+            res.exhaustive = False
+            res.notes.append("enumeration stopped early after 6 violating sequences")
+            break
         try:
             body(case, res)
         except Violation as v:
+            nvio += 1
             if v.bucket not in first:
                 first[v.bucket] = (case, str(v))
     for bucket, (case, msg) in first.items():
